@@ -129,7 +129,7 @@ def segment_length(ctx):
     ctx.ensure("length^2==cartesian", ctx.zero((L ** 2 if ctx.symbolic else float(L) ** 2) * den - num, scale=None if ctx.symbolic else 1 + num))
 
 
-@case("C17", "polytope.eq.polygon", names("p", 4, 3) + ["k0", "k1", "k2", "k3"], mode="field", functions=["geometer.shapes.PolytopeTensor.__eq__"],
+@case("C17", "polytope.eq.polygon", names("p", 4, 3) + ["k0", "k1", "k2", "k3"], mode="field", functions=["geometer.shapes.PolytopeTensor.__eq__"], also=("C03",), share=True,
       timeout=120, max_paths=800, explore_time=600)
 def polytope_eq(ctx):
     """quadrilateral: equal to every cyclic rotation / reversal with arbitrarily rescaled vertices; == implies such a matching"""
@@ -248,6 +248,28 @@ def measures_lattice(ctx):
                     Q = t * Polygon(*[g.Point(x, y, 0) for x, y in vv])
                     got = np.real(Q.centroid.normalized_array[:3])
                     ctx.ensure("polygon-3d-centroid==image-of-the-area-centroid", np.allclose(got, wantc, atol=1e-6), witness=dict(vertices=vv, motion=k, got=got.tolist(), want=np.asarray(wantc).tolist()))
+    # measures of a polygon that was QUERIED before it was moved (derived state stored on the object must not leak into the image)
+    from geometer.shapes import Rectangle
+    for k, t in enumerate(motions[1:]):
+        for make in (lambda: Triangle(g.Point(0, 0, 0), g.Point(4, 0, 0), g.Point(0, 3, 0)), lambda: Polygon(*[g.Point(x, y, 0) for x, y in polys[0]]),
+                     lambda: RegularPolygon(g.Point(1, 1, 0), 2, 6, axis=g.Point(0, 0, 1))):
+            P = make()
+            fresh = t * make()
+            _ = P.edges, P.area, P.vertices, P.facets, P.angles, P.contains(g.Point(1, 1, 0)), P.intersect(g.Line(g.Point(1, 1, -1), g.Point(1, 1, 1)))
+            if hasattr(P, "circumcenter"):
+                _ = P.circumcenter
+            if hasattr(P, "inradius"):
+                _ = P.inradius, P.radius, P.center
+            Q = t * P
+            ok = Q == fresh and abs(Q.area - fresh.area) < 1e-7 and all(a == b for a, b in zip(Q.vertices, fresh.vertices)) and Q.edges == fresh.edges \
+                and bool(Q.contains(t * g.Point(1, 1, 0))) == bool(fresh.contains(t * g.Point(1, 1, 0)))
+            if hasattr(P, "circumcenter"):
+                ok = ok and Q.circumcenter == fresh.circumcenter
+            if hasattr(P, "inradius"):
+                ok = ok and abs(Q.inradius - fresh.inradius) < 1e-7 and Q.center == fresh.center
+            if hasattr(P, "centroid"):
+                ok = ok and Q.centroid == fresh.centroid
+            ctx.ensure("polygon-queried-before-the-motion==polygon-moved-first", ok, witness=dict(motion=k + 1, polygon=type(P).__name__))
     for (a, b, c) in itertools.product((1, 2, 3.5), repeat=3):
         for o in [(0, 0, 0), (1, -2, 3), (-1, -1, -1), (0.5, 0, 2)]:
             O = g.Point(*o)
